@@ -9,12 +9,11 @@ Import ListNotations.
 
 Lemma efrag_mono lvl lvl' : lvl <= lvl' -> forall e, efrag lvl e = true -> efrag lvl' e = true.
 Proof.
-  intros Hle. induction e; intros F; try discriminate F; cbn [efrag] in *;
+  intros Hle. induction e; intros F; try discriminate F; cbn [efrag] in *; try reflexivity;
     repeat (apply andb_true_iff in F; let G := fresh "G" in destruct F as [F G]);
-    try reflexivity; try (apply IHe; assumption);
-    try (rewrite IHe1, IHe2 by assumption; rewrite ?andb_true_r);
-    try (rewrite IHe by assumption; rewrite ?andb_true_r);
-    try reflexivity; apply Nat.leb_le; apply Nat.leb_le in F; lia.
+    repeat (apply andb_true_iff; split); auto;
+    match goal with H : (?k <=? lvl) = true |- (?k <=? lvl') = true =>
+      apply Nat.leb_le; apply Nat.leb_le in H; lia end.
 Qed.
 
 Lemma frag_no_K2 lvl : forall e, efrag lvl e = true -> known_K2 e = false.
@@ -37,6 +36,7 @@ Proof.
   - rewrite IHe1, IHe2 by assumption; reflexivity.
   - destruct ic; rewrite IHe1, IHe2 by assumption; reflexivity.
   - destruct ic; rewrite IHe1, IHe2 by assumption; reflexivity.
+  - exfalso. match goal with H : (6 <=? 3) = true |- _ => discriminate H end.
 Qed.
 
 Lemma frag3_labels_ok e : efrag 3 e = true -> labels_ok e = true.
@@ -62,9 +62,9 @@ Example demo_e2e_in_fragment :
 Proof. vm_compute. repeat split; reflexivity. Qed.
 
 Example frag_e2e_excludes :
-  frag_e2e (ENested 1 (ESeq Semi EValue EValue)) = false /\
+  frag_e2e (ENested 1 (ESeq Blank EValue EValue)) = false /\
   frag_e2e (ESide EValue (ELit (LInt 1))) = false /\
-  frag_e2e (ESeq Semi EValue EValue) = false /\
+  frag_e2e (EGroup (ESeq Semi EValue EValue)) = false /\
   frag_e2e (EReapply (ESide EValue (ELit (LInt 1)))) = false.
 Proof. repeat split; reflexivity. Qed.
 
@@ -94,4 +94,16 @@ Example demo_loop_ok :
   frag_e2e demo_loop = true /\ printable demo_loop = true /\ known_K1 demo_loop = false /\
   known_K2 demo_loop = false /\ labels_ok demo_loop = true /\
   eval_prog sh unit nohost 40 demo_loop VUnit tt = ODone (VNum (Int 3)) (tt, []).
+Proof. vm_compute. repeat split; reflexivity. Qed.
+
+(*  { $ + 1 ; $ * 2 } <~ 3   : a function whose body is a sequence of two statements *)
+Definition demo_seq : expr :=
+  EBin BApply
+    (ENested 1 (ESeq Semi (EBin BAdd EValue (ELit (LInt 1))) (EBin BMul EValue (ELit (LInt 2)))))
+    (ELit (LInt 3)).
+
+Example demo_seq_ok :
+  frag_e2e demo_seq = true /\ printable demo_seq = true /\ known_K1 demo_seq = false /\
+  known_K2 demo_seq = false /\ labels_ok demo_seq = true /\
+  eval_prog sh unit nohost 20 demo_seq VUnit tt = ODone (VNum (Int 8)) (tt, []).
 Proof. vm_compute. repeat split; reflexivity. Qed.
